@@ -315,6 +315,7 @@ func init() {
 			r := g.r
 			o := tableOpts{alpha: alphaPlain, parts: 2, maxCols: 3, maxRows: 4, postAdd: true}
 			t := g.buildTable(o)
+			g.do("leftdomain") // what follows is outside every property's domain: differences are recorded, not reported
 			ti := idOf(t)
 			n := g.ncols(t)
 			for i := 0; i < 1+r.n(2); i++ {
